@@ -79,14 +79,14 @@ def deep(r) -> int:
     return 1
 
 
-def marathon(seed: int, p: float = 0.007) -> int:
+def marathon(seed: int, p: float = 0.005) -> int:
     """Length of a marathon run, or 0.  A few runs of every history / walk batch (own labelled stream, so no other
     draw shifts) are an order of magnitude longer than the rest and pass the thresholds that short histories never
     reach: the 256th, the 1024th and the 4096th access, fill or write, ages and time stamps beyond a byte, more blocks than a
     small table holds."""
     r = stream(seed, "marathon")
     if r.random() < p:
-        return r.choice([258, 300, 520, 520, 1030, 1100, 1300, 1300, 2200, 2700, 4300, 8400]) + r.randint(0, 40)
+        return r.choice([258, 300, 520, 520, 1030, 1100, 1300, 1300, 2200, 2700, 4300, 4400]) + r.randint(0, 40)
     return 0
 
 
